@@ -15,10 +15,10 @@ def run(ctx):
     thorough = ctx.tier == "thorough"
     insts = lastext.instances(ctx, "C05", 2, 2, 2, thorough, timeout=3000)
     ctx.extra["model_instances"] = len(insts)
-    limit = None if thorough else 2500
+    limit = 40000 if thorough else 2500
     if limit and len(insts) > limit:
         insts = [insts[i] for i in sorted(rng.sample(range(len(insts)), limit))]
-    ctx.exhaustive = limit is None
+    ctx.exhaustive = len(insts) <= (limit or 10 ** 9) and ctx.extra["model_instances"] == len(insts)
     events, meta = [], []
     for inst in insts:
         for rep in range(2 if thorough else 1):
